@@ -5,6 +5,7 @@ import (
 	"fmt"
 	"math/rand/v2"
 	"strings"
+	"sync"
 	"testing"
 
 	sse "github.com/tmaxmax/go-sse"
@@ -270,6 +271,56 @@ func TestC02(t *testing.T) {
 	}
 	r.Exhaustive("every data / comment line length 0..300 and -8..+2 around 512..65536, in the middle and at the end of a message")
 
+	// (X) overlapping encodings: several goroutines encode their own messages at once, and a writer
+	// that encodes another message in the middle of a Write: every encoding must be what the
+	// message encodes to on its own
+	nx := r.N(300, 6000)
+	for i := 0; i < nx; i++ {
+		if !r.Mine("X", i) {
+			continue
+		}
+		key := fw.Key("X", i)
+		rng := r.Rand("X", i)
+		r.Begin(key, "overlapping encodings")
+		msgs := make([]*builtMsg, 6)
+		want := make([]string, len(msgs))
+		for j := range msgs {
+			msgs[j] = genMessage(rng, false, false)
+			want[j] = msgs[j].Msg.String()
+		}
+		var wg sync.WaitGroup
+		badAt := make([]int, len(msgs))
+		for j := range msgs {
+			wg.Add(1)
+			go func() {
+				defer wg.Done()
+				for rep := 0; rep < 20; rep++ {
+					var b bytes.Buffer
+					msgs[j].Msg.WriteTo(&b)
+					mt, _ := msgs[j].Msg.MarshalText()
+					if b.String() != want[j] || string(mt) != want[j] || msgs[j].Msg.String() != want[j] {
+						badAt[j]++
+					}
+				}
+			}()
+		}
+		wg.Wait()
+		for j := range badAt {
+			if badAt[j] > 0 {
+				r.Violation(key, []string{"concurrent_encoding_disturbed"}, map[string]any{"ops": msgs[j].Ops, "want": fw.Q(fw.Trunc(want[j], 300))}, "C02: encoding a message while other goroutines encode other messages gave different bytes (%d of 20 times)", badAt[j])
+				break
+			}
+		}
+		// re-entrant writer
+		rw := &reentrantWriter{other: msgs[1].Msg}
+		msgs[0].Msg.WriteTo(rw)
+		if rw.buf.String() != want[0] {
+			r.Violation(key, []string{"reentrant_encoding_disturbed"}, map[string]any{"ops": msgs[0].Ops, "got": fw.Q(fw.Trunc(rw.buf.String(), 300)), "want": fw.Q(fw.Trunc(want[0], 300))}, "C02: a writer that encodes another message during Write received other bytes than the message's own encoding")
+		}
+		r.Count("overlapping_encoding_cases", 1)
+		r.Eval(fw.Hash("c02X", strings.Join(want, "|")), true)
+	}
+
 	// (C) seeded random sequences of 1-5 random messages.
 	nc := r.N(30000, 600000)
 	for i := 0; i < nc; i++ {
@@ -302,6 +353,18 @@ func TestC02(t *testing.T) {
 		}
 		c02Sequence(r, key, msgs)
 	}
+}
+
+// reentrantWriter encodes another message every time it is written to, before it looks at p.
+type reentrantWriter struct {
+	other *sse.Message
+	buf   bytes.Buffer
+}
+
+func (w *reentrantWriter) Write(p []byte) (int, error) {
+	_ = w.other.String()
+	w.other.MarshalText()
+	return w.buf.Write(p)
 }
 
 var _ = rand.IntN
